@@ -39,6 +39,7 @@ from octave_mcp.core.constraints import (
     RequiredConstraint,
     TypeConstraint,
 )
+from octave_mcp.core.emitter import emit_value
 
 if TYPE_CHECKING:
     from octave_mcp.core.schema_extractor import SchemaDefinition
@@ -386,7 +387,10 @@ class GBNFCompiler:
         Returns:
             GBNF alternation: ("value1" | "value2" | "value3")
         """
-        escaped = [self._escape_literal(v) for v in constraint.allowed_values]
+        # The literal is the canonical OCTAVE spelling of the member (quoted unless it is a bare
+        # word), so that the generated text is read back as that member and not as a number,
+        # a boolean/null literal or an operator expression.
+        escaped = [self._escape_literal(emit_value(v)) for v in constraint.allowed_values]
         quoted = [f'"{v}"' for v in escaped]
         return f"({' | '.join(quoted)})"
 
@@ -399,7 +403,10 @@ class GBNFCompiler:
         Returns:
             GBNF literal: "value"
         """
-        value = str(constraint.const_value)
+        # The literal is the canonical OCTAVE spelling of the constant (true/false/null, numbers
+        # as written, strings quoted unless they are a bare word), so that reading the generated
+        # text yields the constant itself.
+        value = emit_value(constraint.const_value)
         escaped = self._escape_literal(value)
         return f'"{escaped}"'
 
